@@ -187,8 +187,9 @@ CLAIMS = {
         "ts < split and every row for position 1 by an edge implying split <= ts (so rows at the split point go up); a whole-batch short-cut is accepted only under "
         "max < split resp. split <= min; R4 side .0 is written to new_shards[0] and side .1 to new_shards[1] at the dual-write and at the back-fill, and the cut-over "
         "gives new_shards[0] the lower and new_shards[1] the upper key range; R5 Ingester::write takes the split-aware path exactly on the DualWrite and Backfill "
-        "phase edges, and a failed write_to_shard cannot end in Ok; R2 the de-duplication key must cover the whole row and R3 it must not run on the statement's "
-        "results (both KNOWN FINDINGS: key is (timestamp, metric_name), applied after aggregation). Not decided: exactness of split-time reads (needs R2/R3 repaired).",
+        "phase edges, and a failed write_to_shard cannot end in Ok; R2 the de-duplication key covers the whole row (every column, via RecordBatch::columns; the (timestamp, metric_name) key was "
+        "repaired by fix 9588ed9) and R3 it must not run on the statement's results (KNOWN FINDING: it is applied after aggregation). Not decided: exactness of "
+        "split-time reads (needs R3 repaired).",
         "Trusted: rustc / driver / engine; arrow take_record_batch selects exactly the given indices; big-endian i64 decoding of the split point.",
         "static analysis: MIR comparison-edge dominance (normalised), value provenance across tuple positions and index constants, switch-edge tables",
         "DESIGN.md §3 C15"),
